@@ -7,7 +7,20 @@ from core.common import H, T0, fm
 from core.pool import pmap
 from core.runner import viol
 
-from checks.c14 import build, expected_locs, ref_axes
+from checks.c14 import build as build_fresh
+from checks.c14 import expected_locs, ref_axes
+
+
+def build(cfg):
+    """cfg['aged']: the grid has a history - it was copied, the copy was moved to the other data location and used (the usual way to describe
+    the same geometry for a point variable); the grid itself must be unaffected"""
+    g = build_fresh(cfg)
+    if cfg.get("aged") and cfg["cls"] != "esri":
+        p = g.copy()
+        p.data_location = "POINTS" if cfg["loc"] == "CELLS" else "CELLS"
+        _ = p.data_shape, p.data_size, p.data_points
+        _ = p.compatible_with(g)
+    return g
 
 DIMS = {1: (4,), 2: (3, 4), 3: (2, 3, 4)}
 
@@ -155,6 +168,21 @@ def check_compat(c1, c2):
         got = bool(a.compatible_with(b))
         if got != want:
             bad.append(("compatible_with_wrong", f"compatible_with={got}, same data locations={want}"))
+    if want and not bad:
+        # history on one transformation object: two data sets converted one after the other; the first result must stay what it was
+        t = g1.get_transform_to(g2)
+        a1, _s, _r = located_array(c1, False)
+        w1, _s, _r = located_array(c2, False)
+        if t is not None:
+            r1 = t(a1)
+            snap = np.array(r1, copy=True)
+            r2 = t(2.0 * a1 + 1.0)
+            if not (np.shape(snap) == np.shape(w1) and np.allclose(snap, w1)):
+                bad.append(("transform_wrong", "first conversion"))
+            elif not np.allclose(np.asarray(r2), 2.0 * w1 + 1.0):
+                bad.append(("transform_wrong", "second conversion"))
+            elif not np.array_equal(np.asarray(r1), snap):
+                bad.append(("earlier_conversion_overwritten_by_later_one", ""))
     return bad
 
 
@@ -249,6 +277,17 @@ def run(tier, seed, agg):
                 for ta, mk in ((True, False), (True, True)):
                     links.append([dict(cfg_of("uniform", dim, loc, l1, dims=dims), sym=True), dict(cfg_of("uniform", dim, loc, l2, dims=dims), sym=True), ta, mk])
                 compat.append([dict(cfg_of("uniform", dim, loc, l1, dims=dims), sym=True), dict(cfg_of("uniform", dim, loc, l2, dims=dims), sym=True)])
+    # grids with a history (copied, the copy relocated and used)
+    for cls in ("uniform", "rect"):
+        for dim in (1, 2):
+            for loc in ("CELLS", "POINTS"):
+                lays = list(layouts(dim))
+                for l in lays:
+                    canon.append(dict(cfg_of(cls, dim, loc, l), aged=True))
+                for l1, l2 in itertools.product(lays, repeat=2):
+                    compat.append([dict(cfg_of(cls, dim, loc, l1), aged=True), dict(cfg_of(cls, dim, loc, l2), aged=True)])
+                    if l1 != l2 and l1["order"] == "F":
+                        links.append([dict(cfg_of(cls, dim, loc, l1), aged=True), dict(cfg_of(cls, dim, loc, l2), aged=True), True, False])
     # ESRI and its uniform twin, every layout of the twin
     for order in "FC":
         esri = dict(cls="esri", dims=(3, 2), order=order, rev=True, inc=(True, False), loc="CELLS")
